@@ -589,6 +589,16 @@ class Interp:
             return self._native(f, args, kwargs)
         if selfobj is not None and not isinstance(selfobj, types.ModuleType):
             if (type(selfobj), name) in _SAFE_NATIVE_METHODS:
+                if type(selfobj) is dict and name == 'get' and args and isinstance(args[0], SStr) \
+                        and all(isinstance(k, str) for k in selfobj.keys()):
+                    # d.get(key[, default]) with a symbolic string in a dictionary with concrete string keys:
+                    # the case split of d[key] (Interp.getitem), the default where no key is equal
+                    try:
+                        return self.getitem(selfobj, args[0])
+                    except PyRaise as e:
+                        if isinstance(e.exc, KeyError):
+                            return args[1] if len(args) > 1 else None
+                        raise
                 if type(selfobj) is dict and name in ('get', 'pop', 'setdefault', '__contains__') and args \
                         and contains_sym(args[0], 0):
                     raise Unsupported('dict.%s with symbolic key' % name)
